@@ -354,7 +354,7 @@ structure WFq (u : URL) : Prop where
   host_ne : u.host ≠ []
   host_form : HostOK env full u
   idna_dec : env.idnaDec u.host = some u.host
-  port_ok : PortOK u
+  port_ok : PortNat u
   path_abs : ∃ rest, u.pathParts = [] :: rest
   query_ok : ∀ kv ∈ u.query, ¬ (D kv.1 = [] ∧ kv.2 = none)
   user_scalar : ∀ x ∈ env.nfc u.username, isScalar x = true
@@ -365,9 +365,11 @@ structure WFq (u : URL) : Prop where
   q_frag : Quoted .fragment (quotePart .fragment env.nfc full u.fragment) (D u.fragment)
 
 /-- what comes back: userinfo NFC-normalised (it is always fully quoted), the other texts decoded,
-    the `//` remembered; scheme, host, family, port unchanged -/
+    the `//` remembered; scheme, host, family unchanged; the port unchanged unless it is zero or the scheme's
+    default (`portBack`: those are not rendered) -/
 def normalG (u : URL) : URL :=
   { u with netlocSep := true
+           port := portBack u
            username := env.nfc u.username
            password := env.nfc u.password
            pathParts := u.pathParts.map D
@@ -481,10 +483,33 @@ theorem normalG_pairText (kv : Text × Option Text) :
   obtain ⟨k, v⟩ := kv
   cases v <;> simp [pairText, decPair, hD]
 
+theorem normalG_hostinfo (u : URL) : hostinfo (normalG env D u) = hostinfo u := by
+  have hp : portText (normalG env D u) = portText u := by
+    unfold portText normalG portBack
+    cases hport : u.port with
+    | none => rfl
+    | some p =>
+      by_cases h : p ≠ 0 ∧ some p ≠ (defaultPort u.scheme).map Int.ofNat
+      · simp [h]
+      · simp [h]
+  unfold hostinfo
+  rw [hp]
+  rfl
+
+theorem normalG_portNat (u : URL) (h : PortNat u) : PortNat (normalG env D u) := by
+  rcases h with h | ⟨p, hp⟩
+  · left; simp [normalG, portBack, h]
+  · unfold PortNat normalG portBack
+    rw [hp]
+    simp only []
+    split
+    · right; exact ⟨p, rfl⟩
+    · left; rfl
+
 include hl hD in
 theorem normalG_urlText (u : URL) : urlText env full (normalG env D u) = urlText env full u := by
   unfold urlText
-  rw [normalG_uiText env D hl u]
+  rw [normalG_uiText env D hl u, normalG_hostinfo env D u]
   have hp : pathText env full (normalG env D u).pathParts = pathText env full u.pathParts := by
     simp only [pathText, normalG, List.map_map]
     congr 1
@@ -512,7 +537,7 @@ theorem normalG_WFq (u : URL) (hW : WFq env full D u) : WFq env full D (normalG 
     | name a b c => exact .name a b c
     | v6 a b c d => exact .v6 a b c d
   idna_dec := hW.idna_dec
-  port_ok := hW.port_ok
+  port_ok := normalG_portNat env D u hW.port_ok
   path_abs := by
     obtain ⟨rest, h⟩ := hW.path_abs
     exact ⟨rest.map D, by simp [normalG, h, hDnil]⟩
@@ -578,15 +603,15 @@ structure Scalars (env : Env) (u : URL) : Prop where
   query : ∀ kv ∈ u.query, (∀ x ∈ env.nfc kv.1, isScalar x = true) ∧
     ∀ v, kv.2 = some v → ∀ x ∈ env.nfc v, isScalar x = true
 
-/-- FULL quoting: "a valid scheme, host (registered name / IPv4 / IPv6 literal) and port" + an absolute path + no (empty key, no value)
-    parameter; the component texts are arbitrary -/
+/-- FULL quoting: "a valid scheme, host (registered name / IPv4 / IPv6 literal) and port" (absent or any natural
+    number, `port = *DIGIT`) + an absolute path + no (empty key, no value) parameter; the component texts are arbitrary -/
 structure WF (env : Env) (u : URL) : Prop where
   scheme_ne : u.scheme ≠ []
   scheme_ok : ∀ c ∈ u.scheme, notIn schemeStop c = true
   host_ne : u.host ≠ []
   host_form : HostOK env true u
   idna_dec : env.idnaDec u.host = some u.host
-  port_ok : PortOK u
+  port_ok : PortNat u
   path_abs : ∃ rest, u.pathParts = [] :: rest
   query_ok : ∀ kv ∈ u.query, ¬ (env.nfc kv.1 = [] ∧ kv.2 = none)
   scalars : Scalars env u
@@ -612,6 +637,25 @@ theorem WF.toWFq {env : Env} {u : URL} (hW : WF env u) (hnil : env.nfc [] = []) 
      fun v hv => quoted_full .query env.nfc v ((hW.scalars.query kv hkv).2 v hv)⟩
   q_frag := quoted_full .fragment env.nfc u.fragment hW.scalars.fragment
 
+/-- `WF` does not care which natural number the port is (or whether there is one) -/
+theorem WF.withPort {env : Env} {u : URL} (hW : WF env u) (p : Option Nat) :
+    WF env { u with port := p.map Int.ofNat } where
+  scheme_ne := hW.scheme_ne
+  scheme_ok := hW.scheme_ok
+  host_ne := hW.host_ne
+  host_form := by
+    cases hW.host_form with
+    | name a b c => exact .name a b c
+    | v6 a b c d => exact .v6 a b c d
+  idna_dec := hW.idna_dec
+  port_ok := by
+    cases p with
+    | none => exact Or.inl rfl
+    | some n => exact Or.inr ⟨n, rfl⟩
+  path_abs := hW.path_abs
+  query_ok := hW.query_ok
+  scalars := ⟨hW.scalars.username, hW.scalars.password, hW.scalars.fragment, hW.scalars.parts, hW.scalars.query⟩
+
 /-- what comes back in full mode: every text NFC-normalised, the `//` remembered -/
 def normal (env : Env) (u : URL) : URL := normalG env env.nfc u
 
@@ -626,7 +670,7 @@ structure WFmin (env : Env) (u : URL) : Prop where
   host_ne : u.host ≠ []
   host_form : HostOK env false u
   idna_dec : env.idnaDec u.host = some u.host
-  port_ok : PortOK u
+  port_ok : PortNat u
   path_abs : ∃ rest, u.pathParts = [] :: rest
   query_ok : ∀ kv ∈ u.query, ¬ (kv.1 = [] ∧ kv.2 = none)
   user_scalar : ∀ x ∈ env.nfc u.username, isScalar x = true
